@@ -219,6 +219,38 @@ theorem ntparser_refines_reference : Statement_ntparser_refines_reference :=
 theorem nqparser_refines_reference : Statement_nqparser_refines_reference :=
   fun line r hnl h => nqParseline_refines line r hnl h
 
+/-- Whole documents, no side condition: whatever document the strict reader accepts ([1] ntriplesDoc, lines cut at every
+    CR / LF [7]), the model of `W3CNTriplesParser.parse` — `readline` cutting at CR LF | CR | LF, parsing a last line without
+    line end, dropping one that is white space only, then `parseline` per line — hands the same triples to the sink, in order. -/
+def Statement_ntparser_doc_refines_reference : Prop :=
+  ∀ (doc : Str) (ts : List Triple), NT.parseDoc doc = some ts → Py.ntParse doc = .ok (ts.map codeTriple)
+
+def Statement_nqparser_doc_refines_reference : Prop :=
+  ∀ (doc : Str) (qs : List Quad), NQ.parseDoc doc = some qs → Py.nqParse doc = .ok (qs.map codeQuad)
+
+theorem ntparser_doc_refines_reference : Statement_ntparser_doc_refines_reference := ntParse_refines
+
+theorem nqparser_doc_refines_reference : Statement_nqparser_doc_refines_reference := nqParse_refines
+
+/-- writer and parser of rdflib, both as modelled, composed: the document `_nt_row` writes for any list of legal triples
+    (every literal content) is read back by `parse()` as exactly those triples -/
+def Statement_nt_write_parse_roundtrip : Prop :=
+  ∀ (ts : List Triple), (∀ t ∈ ts, legalTriple t = true) → Py.ntParse (ntDoc ts) = .ok (ts.map codeTriple)
+
+theorem nt_write_parse_roundtrip : Statement_nt_write_parse_roundtrip :=
+  fun ts h => ntParse_refines (ntDoc ts) ts (nt_doc_valid ts h)
+
+/-- document-level leniency: a last line without line end that `str.isspace()` (here U+00A0, U+3000) is dropped by
+    `readline`; the grammar has no such line.  CR LF, by contrast, is read alike (one line end / an empty line in between). -/
+def Statement_ntparser_doc_lenient : Prop :=
+  NT.parseDoc ("<a:s> <a:p> <a:o> .\r\n".toList ++ [Char.ofNat 0xA0, Char.ofNat 0x3000]) = none ∧
+  Py.ntParse ("<a:s> <a:p> <a:o> .\r\n".toList ++ [Char.ofNat 0xA0, Char.ofNat 0x3000]) =
+    .ok [(.iri (Py.code "a:s".toList), .iri (Py.code "a:p".toList), .iri (Py.code "a:o".toList))] ∧
+  Py.ntParse ("<a:s> <a:p> <a:o> .\r\n".toList ++ [Char.ofNat 0xA0, '\n']) = .error .parse
+
+theorem ntparser_doc_lenient : Statement_ntparser_doc_lenient :=
+  ⟨by decide +kernel, by decide +kernel, by decide +kernel⟩
+
 /-- non-vacuity: one legal line with UCHAR in the IRI, ECHAR + `\u` + `\U` in the string, a language tag with subtags,
     a dotted blank-node label as graph name, no white space where none is needed, and a comment -/
 example :
